@@ -7,7 +7,7 @@ prop("C05", pkg="c05",
           "multi-KiB documents; (6) each of 31 well- and ill-formed tokens starting 0..12 bytes before the Decoder's 32 KiB and 64 KiB buffer boundaries in 4 embeddings; (7) every byte value 0..255 substituted at and inserted before every position of 18 small documents covering every token form. Oracle: encoding/json.Valid and the same consumer calls on encoding/json. Non-trivial = at least 2 bytes and the first byte "
           "can start a JSON text; distinct = counted by construction for the byte enumeration, FNV-64 of the document otherwise.",
      quick=dict(shards=16, scale=1, timeout=900),
-     thorough=dict(shards=16, scale=20, timeout=3400),
+     thorough=dict(shards=16, scale=14, timeout=3400),
      exhaustive=True,
      fuzz=[('FuzzValidDiff', 90)],
      builds=[dict(name="default", tags=[], race=False), dict(name="purego", tags=["purego"], race=False, thorough_only=True)],
